@@ -6,3 +6,5 @@ pub mod lspshape;
 pub mod treedump;
 pub mod cfgmodel;
 pub mod modres;
+pub mod desc;
+pub mod schema;
